@@ -1,14 +1,16 @@
 import LunarVerif.Base.Proto
 import LunarVerif.Spec.C04
+import LunarVerif.Spec.C04Ref
 /-! Driver for C04: `lvdriver_c04 run` (model answers) / `lvdriver_c04 judge` (Spec on impl answers). -/
 open LunarVerif LunarVerif.Proto LunarVerif.FlowGraph LunarVerif.FlowExec LunarVerif.C04
 
 /-! ### parsing of op lines (shared by run and judge) -/
 
-def parseEndp (w : String) : Option End :=
+def parseEndp (w : String) : Option REnd :=
   match w.splitOn ":" with
   | ["S", n, a] => some (.stream (pctDec n) (pctDec a))
   | ["P", k, c] => some (.proc (pctDec k) (pctDec c))
+  | ["F", n, a] => some (.flow (pctDec n) (pctDec a))
   | _ => none
 
 def parseOutDef (w : String) : Option OutDef :=
@@ -49,18 +51,18 @@ def OTable.toOracle (t : OTable) : Oracle :=
   | none => {}
 
 /-- update the LAST declared flow of that name -/
-def updLast (name : String) (g : FlowRep → FlowRep) : List FlowDecl → Option (List FlowDecl)
+def updLast (name : String) (g : RFlowRep → RFlowRep) : List FlowDeclR → Option (List FlowDeclR)
   | [] => none
   | d :: ds =>
     match updLast name g ds with
     | some ds' => some (d :: ds')
     | none => if d.rep.name == name then some ({ d with rep := g d.rep } :: ds) else none
 
-def updFlow (c : Cfg) (name : String) (g : FlowRep → FlowRep) : Option Cfg :=
+def updFlow (c : CfgR) (name : String) (g : RFlowRep → RFlowRep) : Option CfgR :=
   (updLast name g c.flows).map fun fl => { c with flows := fl }
 
 /-- configuration op lines; `none` = not a configuration line or unparsable -/
-def cfgStep (c : Cfg) (ws : List String) : Option Cfg :=
+def cfgStep (c : CfgR) (ws : List String) : Option CfgR :=
   match ws with
   | "ptype" :: n :: outs =>
     (outs.mapM parseOutDef).map fun os => { c with ptypes := c.ptypes ++ [⟨pctDec n, os⟩] }
@@ -105,14 +107,27 @@ def fmtTarget : Target → String
   | .node k => "P." ++ pctEnc k
   | .stream n a => "S." ++ pctEnc n ++ "." ++ pctEnc a
 
-def fmtNode (n : Node) : String :=
-  pctEnc n.key ++ "[" ++ ",".intercalate (n.edges.map fun e => pctEnc e.cond ++ ">" ++ fmtTarget e.target) ++ "]"
+/-- a node created for another flow (`flowGraphName` ≠ the direction's flow) is printed `key@flow` -/
+def fmtNode (name : String) (owner : List (String × String)) (n : Node) : String :=
+  let ow := match owner.find? (·.1 == n.key) with
+    | some (_, f) => if f == name then "" else "@" ++ pctEnc f
+    | none => ""
+  pctEnc n.key ++ ow ++ "[" ++ ",".intercalate (n.edges.map fun e => pctEnc e.cond ++ ">" ++ fmtTarget e.target) ++ "]"
 
-def fmtDir (name : String) (d : Dir) (g : DirGraph) : String :=
+def fmtDirO (name : String) (d : Dir) (g : DirGraph) (owner : List (String × String)) : String :=
   let keys := sortStr (g.nodes.map (·.key))
   let nodes := keys.filterMap g.find
   pctEnc name ++ "." ++ d.str ++ "=" ++ (match g.root with | some r => pctEnc r | none => "-") ++ ":" ++
-    "".intercalate (nodes.map fmtNode)
+    "".intercalate (nodes.map (fmtNode name owner))
+
+def fmtDir (name : String) (d : Dir) (g : DirGraph) : String := fmtDirO name d g []
+
+def fmtDumpWordsR (l : LoadedR) : List String :=
+  let names := sortStr (l.flows.map (·.2.flow.name))
+  names.flatMap fun n =>
+    match l.flows.find? (·.2.flow.name == n) with
+    | none => []
+    | some (_, f) => [fmtDirO n .req f.flow.req f.reqOwner, fmtDirO n .res f.flow.res f.resOwner]
 
 def fmtDumpWords (l : Loaded) : List String :=
   let names := sortStr (l.flows.map (·.2.name))
@@ -155,15 +170,15 @@ def fmtTxn (users : List String) (r : TxnRes) : String :=
   let t := r.trace.filter (visible users)
   fmtErr r.err ++ " ev=" ++ joinOr (t.map fmtEvent) ++ " acts=" ++ joinOr (earlyActs t)
 
-def userNames (c : Cfg) : List String := (c.flows.filter (·.kind == .user)).map (·.rep.name)
+def userNames (c : CfgR) : List String := (c.flows.filter (·.kind == .user)).map (·.rep.name)
 
 /-! ### run mode -/
 
 structure RunSt where
-  cfg : Cfg := {}
+  cfg : CfgR := {}
   loaded : Option Loaded := none
 
-def allNamed (c : Cfg) (order : List String) : Bool := c.flows.all fun d => order.contains d.rep.name
+def allNamed (c : CfgR) (order : List String) : Bool := c.flows.all fun d => order.contains d.rep.name
 
 def runStep (s : RunSt) (line : String) : RunSt × String :=
   let ws := words line
@@ -172,11 +187,19 @@ def runStep (s : RunSt) (line : String) : RunSt × String :=
   | "load" :: rest =>
     let order := parseOrder rest
     if !allNamed s.cfg order then ({ s with loaded := none }, "bad-op") else
-    match load s.cfg order with
-    | .error e =>
-      let single := s.cfg.flows.length == 1 && s.cfg.quotas.isEmpty
-      ({ s with loaded := none }, if single then "reject:" ++ e.str else "reject")
-    | .ok l => ({ s with loaded := some l }, "accept " ++ fmtDump l)
+    let single := s.cfg.flows.length == 1 && s.cfg.quotas.isEmpty
+    match s.cfg.base? with
+    | some c =>
+      -- reference-free: the loader of `Model/C04.lean`
+      match load c order with
+      | .error e => ({ s with loaded := none }, if single then "reject:" ++ e.str else "reject")
+      | .ok l => ({ s with loaded := some l }, "accept " ++ fmtDump l)
+    | none =>
+      -- flow references: `Model/C04Ref.lean`; mutually referencing flows are not loaded by the harness
+      if refCycle s.cfg.reps then ({ s with loaded := none }, "unsafe-refcycle") else
+      match loadR s.cfg order with
+      | .error e => ({ s with loaded := none }, if single then "reject:" ++ e.str else "reject")
+      | .ok l => ({ s with loaded := some l.toLoaded }, "accept " ++ " ".intercalate (fmtDumpWordsR l))
   | "txn" :: rest =>
     match (kv rest "dir").bind parseDir, (kv rest "o").bind parseOracle with
     | some d, some t =>
@@ -194,7 +217,7 @@ def runStep (s : RunSt) (line : String) : RunSt × String :=
 /-! ### judge mode: Spec on the implementation's answers -/
 
 structure JudgeSt where
-  cfg : Cfg := {}
+  cfg : CfgR := {}
   order : List String := []
   accepted : Bool := false
   bad : Option String := none
@@ -243,10 +266,13 @@ def judgeStep (s : JudgeSt) (op out : String) : JudgeSt :=
         match events with
         | none => { s with bad := some ("unparsable-events:" ++ pctEnc out) }
         | some tr =>
-          let sc := specCfg s.cfg s.order
+          let (sc, asym) := match s.cfg.base? with
+            | some c => (specCfg c s.order, false)
+            | none => (specCfgR s.cfg s.order, refDiverges s.cfg)
           match judgeTxn sc (userNames s.cfg) t.toOracle d tr err with
           | none => s
-          | some (fid, msg) =>
+          | some (fid0, msg) =>
+            let fid := if fid0 == "-" && asym then "F04f" else fid0
             let m := msg ++ " txn=" ++ pctEnc op
             if fid == "-" then { s with failUnk := some m } else { s with fail := s.fail <|> some (fid, m) }
       | _, _, _, _ => { s with bad := some ("unparsable-txn:" ++ pctEnc out) }
